@@ -10,27 +10,36 @@
 
    What is abstracted, exactly:
    * exceptions are [None]; which exception is not modelled;
-   * HCI_Event.vendor_factories is empty (bumble.hci registers none itself; the vendor
-     modules that add one are outside this model);
+   * HCI_Event.vendor_factories: the factories registered by the imported modules are
+     described by [r_vendor] (today one: the Android factory, which hands a vendor event to
+     the quality-report class when the sub-event code and the report id match, and
+     otherwise declines); a factory the translator does not recognise fails the check;
    * the two hand-written commands listed in [r_custom] (item count = number of bits set
-     in a PHY mask) parse to [PCustomClass]: their field layout is not modelled;
+     in a PHY mask) parse to [PCustomClass]: their field layout is not modelled; a command
+     that overrides parse_return_parameters ([r_custom_return]) gives [PCmdCompleteCustom];
    * class identity is (kind, code); [known = false] is the generic fallback class. *)
 From Coq Require Import String ZArith List Bool.
 From BV Require Import Base.Bytes Model.SpecCodec.
 Import ListNotations.
 Open Scope Z_scope.
 
-Record cls := mkcls { c_kind : Z; c_code : Z; c_name : string; c_fields : list field }.
+(* c_event: the class's own event_code attribute (what __bytes__ writes); 0 for commands
+   and return-parameter classes *)
+Record cls := mkcls { c_kind : Z; c_code : Z; c_event : Z; c_name : string; c_fields : list field }.
 
 Definition K_COMMAND := 0.
 Definition K_EVENT := 1.
 Definition K_LE_EVENT := 2.
 Definition K_RETURN := 3.
+Definition K_VENDOR := 4.                       (* vendor sub-event classes reached through a factory *)
 
 Record registry := mkreg {
   r_classes : list cls;
   r_custom : list (Z * Z);                     (* (kind, code) of hand-written classes *)
-  r_return : list (Z * (string * bool))        (* opcode -> return class name, status first *)
+  r_return : list (Z * (string * bool));       (* opcode -> return class name, status first *)
+  r_custom_return : list Z;                    (* opcodes whose command overrides parse_return_parameters *)
+  r_vendor : list (Z * list Z);                (* vendor factories in call order: (sub-event code, report ids) *)
+  r_objects : list (Z * Z)                     (* (kind, index of the dict object that holds the registry) *)
 }.
 
 Definition find_class (R : registry) (kind code : Z) : option cls :=
@@ -55,6 +64,7 @@ Definition HCI_EVENT_PACKET := 4.
 Definition HCI_ISO_DATA_PACKET := 5.
 Definition HCI_LE_META_EVENT := 62.          (* 0x3E *)
 Definition HCI_COMMAND_COMPLETE_EVENT := 14. (* 0x0E *)
+Definition HCI_VENDOR_EVENT := 255.          (* 0xFF *)
 Definition GENERIC_RETURN := "HCI_GenericReturnParameters"%string.
 Definition STATUS_RETURN := "HCI_StatusReturnParameters"%string.
 
@@ -66,7 +76,10 @@ Inductive packet :=
 | PEvent (code : Z) (known : bool) (vals : list value) (params : list Z)
 | PCmdComplete (vals : list value) (ret_name : string) (ret_vals : list value) (params : list Z)
 (* HCI_LE_Meta_Event; params include the sub-event code byte *)
+| PCmdCompleteCustom (vals : list value) (params : list Z)   (* return parameters parsed by hand-written code *)
 | PLeMeta (sub : Z) (known : bool) (vals : list value) (params : list Z)
+(* a vendor event (0xFF) that a registered factory turned into a vendor sub-event class *)
+| PVendorSub (sub : Z) (vals : list value) (params : list Z)
 | PAcl (handle pb bc total : Z) (data : list Z)
 | PSco (handle status total : Z) (data : list Z)
 | PIso (handle pb total : Z) (time_stamp : option Z) (sdu : option (Z * Z * Z))
@@ -119,6 +132,16 @@ Definition class_params (R : registry) (kind code : Z) (known : bool) (vals : li
     end
   else Some [].                                           (* fields = () *)
 
+(* HCI_Event.__bytes__ writes self.event_code: the class attribute of the class the packet
+   was parsed into (the generic classes carry the code they were given) *)
+Definition class_event (R : registry) (kind code : Z) (known : bool) (generic : Z) : Z :=
+  if known then
+    match find_class R kind code with
+    | Some c => c_event c
+    | None => generic
+    end
+  else generic.
+
 Definition command_bytes (op : Z) (params : list Z) : option (list Z) :=
   (* struct.pack('<BHB', 1, op_code, len(parameters)) + parameters *)
   if u_range 2 op && (length params <? 256)%nat
@@ -150,6 +173,57 @@ Definition parse_return (R : registry) (op : Z) (rpb : list Z) : option (string 
       end
   end.
 
+(* HCI_Event.vendor_factories, called in order with the parameter block.  A factory of the
+   catalogued shape declines (returns None) unless parameters[0] is its sub-event code and
+   parameters[1] one of its report ids; then it parses the class registered for the
+   sub-event at offset 1 (an exception there propagates).
+   Result: None = exception, Some None = every factory declined. *)
+Fixpoint vendor_factories (R : registry) (rules : list (Z * list Z)) (params : list Z)
+  : option (option packet) :=
+  match rules with
+  | [] => Some None
+  | (sub, ids) :: rest =>
+      match params with
+      | s :: ((q :: _) as tl) =>
+          if (s =? sub) && existsb (Z.eqb q) ids then
+            match find_class R K_VENDOR sub with
+            | Some c =>
+                match parse_fields (c_fields c) s tl with
+                | Some (vs, _) => Some (Some (PVendorSub sub vs params))
+                | None => None
+                end
+            | None => None
+            end
+          else vendor_factories R rest params
+      | _ => vendor_factories R rest params             (* fewer than two bytes: declined *)
+      end
+  end.
+
+(* an event class registered for the code (also the generic vendor event, a class with one
+   rest-of-packet field), or the generic fallback *)
+Definition plain_event (R : registry) (code : Z) (params : list Z) : option packet :=
+  match find_class R K_EVENT code with
+  | None => Some (PEvent code false [] params)
+  | Some c =>
+      match parse_at0 (c_fields c) params with
+      | None => None
+      | Some vs =>
+          if code =? HCI_COMMAND_COMPLETE_EVENT then
+            match vs with
+            | [n; VInt op; _] =>
+                if existsb (Z.eqb op) (r_custom_return R)
+                then Some (PCmdCompleteCustom [n; VInt op] params)
+                else
+                  match parse_return R op (skipn 3 params) with
+                  | Some (rn, rvs) => Some (PCmdComplete [n; VInt op] rn rvs params)
+                  | None => None
+                  end
+            | _ => None
+            end
+          else Some (PEvent code true vs params)
+      end
+  end.
+
 (* dispatch on the event code once the parameter block is known *)
 Definition event_body (R : registry) (code : Z) (params : list Z) : option packet :=
   if code =? HCI_LE_META_EVENT then
@@ -165,25 +239,13 @@ Definition event_body (R : registry) (code : Z) (params : list Z) : option packe
             end
         end
     end
-  else
-    match find_class R K_EVENT code with
-    | None => Some (PEvent code false [] params)
-    | Some c =>
-        match parse_at0 (c_fields c) params with
-        | None => None
-        | Some vs =>
-            if code =? HCI_COMMAND_COMPLETE_EVENT then
-              match vs with
-              | [n; VInt op; _] =>
-                  match parse_return R op (skipn 3 params) with
-                  | Some (rn, rvs) => Some (PCmdComplete [n; VInt op] rn rvs params)
-                  | None => None
-                  end
-              | _ => None
-              end
-            else Some (PEvent code true vs params)
-        end
-    end.
+  else if code =? HCI_VENDOR_EVENT then
+    match vendor_factories R (r_vendor R) params with
+    | None => None
+    | Some (Some p) => Some p
+    | Some None => plain_event R code params          (* HCI_Vendor_Event(data=parameters) *)
+    end
+  else plain_event R code params.
 
 Definition parse_event (R : registry) (b : list Z) : option packet :=
   if (length b <? 3)%nat then None                       (* packet[1], packet[2] *)
@@ -296,7 +358,7 @@ Definition packet_bytes (R : registry) (p : packet) : option (list Z) :=
       end
   | PEvent code known vals params =>
       match cached params (class_params R K_EVENT code known vals) with
-      | Some ps => event_bytes code ps
+      | Some ps => event_bytes (class_event R K_EVENT code known code) ps
       | None => None
       end
   | PCmdComplete vals rn rvs params =>
@@ -311,7 +373,22 @@ Definition packet_bytes (R : registry) (p : packet) : option (list Z) :=
         | _, _ => None
         end in
       match cached params recompute with
-      | Some ps => event_bytes HCI_COMMAND_COMPLETE_EVENT ps
+      | Some ps => event_bytes (class_event R K_EVENT HCI_COMMAND_COMPLETE_EVENT true HCI_COMMAND_COMPLETE_EVENT) ps
+      | None => None
+      end
+  | PCmdCompleteCustom _ params =>
+      match cached params None with
+      | Some ps => event_bytes (class_event R K_EVENT HCI_COMMAND_COMPLETE_EVENT true HCI_COMMAND_COMPLETE_EVENT) ps
+      | None => None
+      end
+  | PVendorSub sub vals params =>
+      let recompute :=
+        match class_params R K_VENDOR sub true vals with
+        | Some ps => if u_range 1 sub then Some (sub :: ps) else None
+        | None => None
+        end in
+      match cached params recompute with
+      | Some ps => event_bytes (class_event R K_VENDOR sub true HCI_VENDOR_EVENT) ps
       | None => None
       end
   | PLeMeta sub known vals params =>
@@ -321,7 +398,7 @@ Definition packet_bytes (R : registry) (p : packet) : option (list Z) :=
         | None => None
         end in
       match cached params recompute with
-      | Some ps => event_bytes HCI_LE_META_EVENT ps
+      | Some ps => event_bytes (class_event R K_LE_EVENT sub known HCI_LE_META_EVENT) ps
       | None => None
       end
   | PAcl handle pb bc total data => acl_bytes handle pb bc total data
@@ -340,16 +417,24 @@ Definition build (R : registry) (c : cls) (vals : list value) : option packet :=
       else if c_kind c =? K_EVENT then Some (PEvent (c_code c) true vals ps)
       else if c_kind c =? K_LE_EVENT then
         (if u_range 1 (c_code c) then Some (PLeMeta (c_code c) true vals (c_code c :: ps)) else None)
+      else if c_kind c =? K_VENDOR then
+        (if u_range 1 (c_code c) then Some (PVendorSub (c_code c) vals (c_code c :: ps)) else None)
       else None
   end.
 
-(* registry well-formedness, re-checked by vm_compute on the regenerated registry *)
+(* registry well-formedness, re-checked by vm_compute on the regenerated registry.
+   Kind consistency: what a dispatcher finds in ITS registry is a class of ITS kind - an
+   event class writes the event code it is registered under, every LE sub-event class
+   writes 0x3E, every vendor sub-event class 0xFF.  (A class that sits in the wrong
+   registry would be parsed from one event code and re-serialised under another.) *)
 Definition wf_class (c : cls) : bool :=
   wf_fields (c_fields c) &&
-  ((0 <=? c_kind c) && (c_kind c <=? 3)) &&
-  (if c_kind c =? K_COMMAND then u_range 2 (c_code c)
-   else if c_kind c =? K_RETURN then true
-   else u_range 1 (c_code c)).
+  ((0 <=? c_kind c) && (c_kind c <=? 4)) &&
+  (if c_kind c =? K_COMMAND then u_range 2 (c_code c) && (c_event c =? 0)
+   else if c_kind c =? K_RETURN then (c_event c =? 0)
+   else if c_kind c =? K_EVENT then u_range 1 (c_code c) && (c_event c =? c_code c)
+   else if c_kind c =? K_LE_EVENT then u_range 1 (c_code c) && (c_event c =? HCI_LE_META_EVENT)
+   else u_range 1 (c_code c) && (c_event c =? HCI_VENDOR_EVENT)).
 
 Fixpoint no_dup_codes (l : list (Z * Z)) : bool :=
   match l with
@@ -374,8 +459,27 @@ Definition returns_ok (R : registry) : bool :=
   && match find_by_name R K_RETURN STATUS_RETURN with Some c => true | None => false end
   && no_dup_names (map c_name (filter (fun c => c_kind c =? K_RETURN) (r_classes R))).
 
+(* the registries are distinct dict objects (sharing one would make every class of one kind
+   reachable from the other kind's dispatcher) *)
+Fixpoint no_dup_z (l : list Z) : bool :=
+  match l with
+  | [] => true
+  | x :: r => negb (existsb (Z.eqb x) r) && no_dup_z r
+  end.
+
+Definition objects_distinct (R : registry) : bool :=
+  no_dup_z (map snd (r_objects R)) && no_dup_z (map fst (r_objects R)) &&
+  forallb (fun k => existsb (fun p => Z.eqb (fst p) k) (r_objects R)) [K_COMMAND; K_EVENT; K_LE_EVENT; K_VENDOR].
+
+(* vendor rules name registered vendor sub-event classes; the LE meta code itself and the
+   vendor code have no LE / plain-event ambiguity *)
+Definition vendor_ok (R : registry) : bool :=
+  forallb (fun r => match find_class R K_VENDOR (fst r) with Some _ => true | None => false end) (r_vendor R)
+  && match find_class R K_EVENT HCI_LE_META_EVENT with Some _ => false | None => true end.
+
 Definition wf_registry (R : registry) : bool :=
-  forallb wf_class (r_classes R) && codes_unique R && returns_ok R.
+  forallb wf_class (r_classes R) && codes_unique R && returns_ok R
+  && objects_distinct R && vendor_ok R.
 
 (* names of the classes that are not well-formed (for diagnostics) *)
 Definition bad_classes (R : registry) : list string :=
